@@ -86,6 +86,38 @@ pub fn counting(ctx: &mut Ctx) {
         let txt = match &r { Ok(Ok(v)) => v.clone(), _ => "ERR".to_string() };
         ctx.line(&format!("jac f32 {} | {}", sa, sb), &txt);
         if mismatch { expect_err(ctx, "superminhasher2::get_jaccard_index_estimate<u32>", false, &r, &a, &b); }
+        // near ties and non-finite values: positions are equal only if the VALUES are equal (1 ulp apart is different,
+        // inf equals inf); NaN and signed zeros are avoided because `==` and bit equality differ there
+        if !mismatch {
+            let near = [0.75f64, f64::from_bits(0.75f64.to_bits() + 1), f64::from_bits(0.75f64.to_bits() - 1), f64::INFINITY,
+                        0.75 + 2.0 * f64::EPSILON, 1.0 - f64::EPSILON / 2.0, 1.0, 5e-324, 63.99999999999999, 64.0];
+            let uf: Vec<f64> = a.iter().enumerate().map(|(i, x)| near[(*x as usize + i) % near.len()]).collect();
+            let vf: Vec<f64> = b.iter().enumerate().map(|(i, x)| near[(*x as usize + i + (i % 3 == 0) as usize) % near.len()]).collect();
+            let t = uf.iter().zip(vf.iter()).filter(|(x, y)| x == y).count() as f64 / n as f64;
+            let ub: Vec<u64> = uf.iter().map(|x| x.to_bits()).collect();
+            let vb: Vec<u64> = vf.iter().map(|x| x.to_bits()).collect();
+            ctx.count("near-tie / inf vectors");
+            for (name, r) in [
+                ("jaccard::get_jaccard_index_estimate<f64> (near ties)", catch(|| jaccard::get_jaccard_index_estimate(&uf, &vf).map(fhx).map_err(|e| e.to_string()))),
+                ("superminhasher::compute_superminhash_jaccard<f64> (near ties)", catch(|| superminhasher::compute_superminhash_jaccard(&uf, &vf).map(fhx).map_err(|e| e.to_string()))),
+                ("superminhasher::get_jaccard_index_estimate<f64> (near ties)", catch(|| superminhasher::get_jaccard_index_estimate(&uf, &vf).map(fhx).map_err(|e| e.to_string()))),
+            ] {
+                let txt = match &r { Ok(Ok(v)) => v.clone(), _ => "ERR".to_string() };
+                ctx.line(&format!("jac f64 {} | {}", join(&ub), join(&vb)), &txt);
+                if txt != fhx(t) {
+                    ctx.oracle_failure(serde_json::json!({"kind":"impl_violates_property","what":format!("{}: not count/len", name),"a_bits":ub,"b_bits":vb,"got":txt,"want":fhx(t)}));
+                }
+            }
+            let near32 = [0.75f32, f32::from_bits(0.75f32.to_bits() + 1), f32::from_bits(0.75f32.to_bits() - 1), f32::INFINITY, 1.0 - f32::EPSILON / 2.0, 1.0, 1e-45];
+            let uf32: Vec<f32> = a.iter().enumerate().map(|(i, x)| near32[(*x as usize + i) % near32.len()]).collect();
+            let vf32: Vec<f32> = b.iter().enumerate().map(|(i, x)| near32[(*x as usize + i + (i % 3 == 0) as usize) % near32.len()]).collect();
+            let t32 = uf32.iter().zip(vf32.iter()).filter(|(x, y)| x == y).count() as f32 / n as f32;
+            let r = catch(|| superminhasher::compute_superminhash_jaccard(&uf32, &vf32).map(f32hx).map_err(|e| e.to_string()));
+            let txt = match &r { Ok(Ok(v)) => v.clone(), _ => "ERR".to_string() };
+            if txt != f32hx(t32) {
+                ctx.oracle_failure(serde_json::json!({"kind":"impl_violates_property","what":"superminhasher::compute_superminhash_jaccard<f32> (near ties): not count/len","got":txt,"want":f32hx(t32),"n":n}));
+            }
+        }
         // methods on sketchers: SuperMinHash::get_jaccard_index_estimate(&self, other) / SuperMinHash2
         if c % 3 == 0 {
             let bh = BuildHasherDefault::<FnvHasher>::default();
@@ -99,6 +131,7 @@ pub fn counting(ctx: &mut Ctx) {
                 if c % 2 == 0 { other.push(0.5); } else if other.len() > 1 { other.pop(); } else { other.push(0.5); other.push(0.25); }
             } else if n > 1 {
                 other[0] = -1.0;
+                for i in (1..other.len()).step_by(2) { other[i] = f64::from_bits(other[i].to_bits() + 1); } // 1 ulp away: not equal
             }
             let r = catch(std::panic::AssertUnwindSafe(|| s.get_jaccard_index_estimate(&other).map(fhx).map_err(|e| e.to_string())));
             let own_bits: Vec<u64> = own.iter().map(|x| x.to_bits()).collect();
